@@ -239,7 +239,7 @@ func init() {
 	prof.Cls = map[string]map[string]int{"login": {"ok": 80, "wrong": 12, "near": 4, "empty": 4}}
 	register(&Check{
 		ID: "C10", Level: "exploration",
-		Rule:  "states are harvested, not hand-made: the mixed random histories of the C01 generator (all flows, all module subsets, whitelists of 0/1/3 application keys (in a sixth of the units also naming uid / halfauth / last_action, which a logout removes regardless), logout method GET/POST/DELETE) are cut at random points by a logout from whatever state the browser is in (logged in / half-authed via remember / mid-2FA login / mid-2FA setup / mid-e-mail-verify / mid-OAuth2 / SMS code outstanding / anonymous), followed by a visit; some logouts carry a redir parameter (same-site, off-site, malformed), some happen while the user table is unreachable (every user lookup of that request fails). Oracle: after the logout response the server-side session holds only whitelisted keys (values preserved) and flash keys, the jar has no rm cookie, the follow-up request is unauthenticated; any other method on /logout leaves uid, auth marks, pending logins and the cookie as they were. Every other wrong-method request also names the configured method the way method-override conventions do (_method= in query and body, X-HTTP-Method-Override). distinct_nontrivial = distinct (method, configured?, state labels, whitelist size, cookie present, mode, expire installed) signatures.",
+		Rule:  "states are harvested, not hand-made: the mixed random histories of the C01 generator (all flows, all module subsets, whitelists of 0/1/3 application keys (in a sixth of the units also naming uid / halfauth / last_action, which a logout removes regardless), logout method GET/POST/DELETE) are cut at random points by a logout from whatever state the browser is in (logged in / half-authed via remember / mid-2FA login / mid-2FA setup / mid-e-mail-verify / mid-OAuth2 / SMS code outstanding / anonymous), followed by a visit; some logouts carry a redir parameter (same-site, off-site, malformed), some happen while the user table is unreachable (every user lookup of that request fails). Oracle: after the logout response the server-side session holds only whitelisted keys (values preserved) and flash keys, the jar has no rm cookie, the follow-up request is unauthenticated; any other method on /logout leaves uid, auth marks, pending logins and the cookie as they were. Every other wrong-method request also names the configured method the way method-override conventions do (_method= in query and body, X-HTTP-Method-Override). A sixth of the units whitelists short application keys (id, t, auth) that every browser holds: kept by every logout. distinct_nontrivial = distinct (method, configured?, state labels, whitelist size, cookie present, mode, expire installed) signatures.",
 		Units: func(t string) int { return tierN(t, 700, 30000) },
 		Run: func(c *RunCtx, unit int) {
 			r := Rng(c.Seed, "C10", unit)
